@@ -3,5 +3,5 @@ CONSTANTS
   MaxOps = 3
   Levels = {0, 11, 12}
   KeyCounts = {0, 1, 2}
-INVARIANTS EncryptedHasRecipient LevelInRange OnlyRecipientsOpen Replay
+INVARIANTS EveryRecipientOpensAlone EncryptedHasRecipient LevelInRange OnlyRecipientsOpen Replay
 CHECK_DEADLOCK FALSE
